@@ -163,6 +163,7 @@ func (C06) execute(p *Plan, r *simkit.Run) *simkit.Violation {
 	}
 	prev := evalAll(battery, c.L.State())
 	prevStore := c.L.State()
+	gwPrev := ""
 
 	// a few queries go through the real blockingquery.Query, parked on the fake clock
 	fs := &fsmServer{c: c, shutdown: make(chan struct{})}
@@ -195,12 +196,9 @@ func (C06) execute(p *Plan, r *simkit.Run) *simkit.Violation {
 		now := evalAll(battery, store)
 		isReap := strings.HasPrefix(e.Desc, "reap")
 		// known finding C06-connect-health-index-slides-back: did this entry change the gateway links?
-		gwChanged := false
-		for i, q := range battery {
-			if q.Name == "DumpGatewayServices" && prev.res[i].Result != now.res[i].Result {
-				gwChanged = true
-			}
-		}
+		gwNow := strings.Join(c.L.Dump()["gateway-services"], "\n")
+		gwChanged := gwNow != gwPrev
+		gwPrev = gwNow
 		if store == prevStore {
 			for i, q := range battery {
 				if q.UsageMetric || c06Skip[q.Group] {
@@ -248,7 +246,7 @@ func (C06) execute(p *Plan, r *simkit.Run) *simkit.Violation {
 				}
 				if a.Index < b.Index && !isReap && a.Err == "" && b.Err == "" && !q.NoIndex {
 					viol = mk("index-regressed", "index-never-decreases", opOfDesc(e.Desc)+":"+q.Group,
-						fmt.Sprintf("entry %d (%s): index of %s went %d -> %d", e.Index, e.Desc, q.Name, b.Index, a.Index))
+						fmt.Sprintf("entry %d (%s): index of %s went %d -> %d (gateway links changed in this entry: %v)", e.Index, e.Desc, q.Name, b.Index, a.Index, gwChanged))
 					return
 				}
 			}
@@ -316,3 +314,4 @@ func (C06) execute(p *Plan, r *simkit.Run) *simkit.Violation {
 	r.Nontrivial = len(c.Log) >= 3
 	return nil
 }
+
